@@ -717,8 +717,17 @@ def carry_pair_rule(chk, facts, rule):
                     if not (is_assign(m) and m[1] in ('+=', '-=')):
                         continue
                     t = nocast(m[2])
-                    if not (t[0] == 'm' and t[2].endswith('.LastWordFill') and any(
-                            isinstance(x, (list, tuple)) and x and x[0] == 'm' and x[2].endswith('.ElemsPerFullWord') for x in walk(m[3]))):
+                    def radix(e, depth=0):
+                        for x in walk(e):
+                            if isinstance(x, (list, tuple)) and x and x[0] == 'm' and x[2].endswith('.ElemsPerFullWord'):
+                                return True
+                            if isinstance(x, (list, tuple)) and len(x) == 2 and x[0] == 'l' and depth < 2:
+                                # a local that holds the radix
+                                ds = [m3 for b3, i3, l3, m3 in f.nodes() if is_assign(m3) and m3[1] == '=' and nocast(m3[2]) == tuple(x)]
+                                if ds and all(radix(d[3], depth + 1) for d in ds):
+                                    return True
+                        return False
+                    if not (t[0] == 'm' and t[2].endswith('.LastWordFill') and radix(m[3])):
                         continue
                     n += 1
                     base = nocast(t[1])
